@@ -130,7 +130,12 @@ func TestC03(t *testing.T) {
 	rec := mon.New("C03", "exploration", pktRule)
 	rec.Require("ack-accepted", "ack-rejected", "recorded-ack-checked", "ack-callbacks", "empty-ack-deliveries-refused")
 	emptyAckScenario(rec)
-	pktHistories(rec, mon.Scale(48, 1600), func(i int, c *world.PktCfg) { c.PAdv, c.PRelay = 0.25, 0.4 },
+	pktHistories(rec, mon.Scale(48, 1600), func(i int, c *world.PktCfg) {
+		c.PAdv, c.PRelay = 0.25, 0.4
+		if i%3 == 1 { // frequent whitelist changes on the relay chains, old relay-hop messages replayed after each
+			c.PRules, c.Steps = 0.06, 160
+		}
+	},
 		func() []world.Monitor { return []world.Monitor{&props.C03{R: rec}} })
 	setExit(rec.Finish())
 }
